@@ -114,6 +114,7 @@ type HarnessReport struct {
 	SolveS      float64     `json:"solver_s"`
 	Paths       int         `json:"paths"`
 	Forks       int         `json:"forks"`
+	Retried     int         `json:"retried_obligations,omitempty"`
 	Pruned      int         `json:"pruned_arms,omitempty"`
 	FeasQ       int         `json:"feasibility_queries,omitempty"`
 	Merges      int         `json:"merges"`
